@@ -339,12 +339,72 @@ def sim (i : Inp) : String :=
   | some ft, some tf => unwords ("ft" :: fcalls (xfBuilder i.m.apply ft) ++ "tf" :: fcalls tf)
   | _, _ => "panic"
 
+/-! ### family `ip`: the iterator-side adapters on ARBITRARY event lists (partial streams)
+
+CASE: `n tol m.. S|G <events with attributes> <advice>`; events as the harness prints them
+(`b p a*n | l p a*n p a*n | q p a*n ctrl p a*n | c p a*n ctrl1 ctrl2 p a*n | e p a*n p a*n 0/1`).
+No well-formedness is assumed: the list may start inside a sub-path, consist of edges only, … -/
+
+def takeAP (n : Nat) : List String → Option (AP Pn F × List String)
+  | x :: y :: r => let (a, r') := takeAttrs n r; some ((pt x y, a), r')
+  | _ => none
+
+partial def parseAEvs (n : Nat) : List String → List (Event (AP Pn F))
+  | "b" :: r =>
+    match takeAP n r with
+    | some (a, r1) => .begin a :: parseAEvs n r1
+    | none => []
+  | "l" :: r =>
+    match takeAP n r with
+    | some (a, r1) =>
+      match takeAP n r1 with
+      | some (b, r2) => .line a b :: parseAEvs n r2
+      | none => []
+    | none => []
+  | "q" :: r =>
+    match takeAP n r with
+    | some (a, cx :: cy :: r1) =>
+      match takeAP n r1 with
+      | some (b, r2) => .quad a (pt cx cy, []) b :: parseAEvs n r2
+      | none => []
+    | _ => []
+  | "c" :: r =>
+    match takeAP n r with
+    | some (a, cx :: cy :: dx :: dy :: r1) =>
+      match takeAP n r1 with
+      | some (b, r2) => .cubic a (pt cx cy, []) (pt dx dy, []) b :: parseAEvs n r2
+      | none => []
+    | _ => []
+  | "e" :: r =>
+    match takeAP n r with
+    | some (l, r1) =>
+      match takeAP n r1 with
+      | some (f, c :: r2) => .end_ l f (c == "1") :: parseAEvs n r2
+      | _ => []
+    | none => []
+  | _ => []
+
+def ip (v : Array String) : String :=
+  let n := rdNat v 0
+  let m : Xf F := ⟨rd v 2, rd v 3, rd v 4, rd v 5, rd v 6, rd v 7⟩
+  let withA := v.getD 8 "" == "S"
+  let toks := v.toList.drop 9
+  let aevs := parseAEvs n (toks.takeWhile (· != "|"))
+  let adv := parseAdvice ⟨[], []⟩ (toks.dropWhile (· != "|"))
+  let evs : List (Event Pn) := aevs.map (mapEvent (·.1))
+  let G := itFlattener adv
+  unwords ("t" :: fevs (xfIter m.apply evs)
+    ++ "f" :: fevs (flatIter G evs)
+    ++ "tf" :: fevs (flatIter G (xfIter m.apply evs))
+    ++ "ft" :: fevs (xfIter m.apply (flatIter G evs))
+    ++ (if withA then "a" :: faevs (flatAttrIter (cbFlattener adv) aevs) else []))
+
 def fam (name : String) (f : Inp → String) : Family := Family.plain name (fun v => f (parse v))
 
 def families : List Family := [
   fam "wit" bf, fam "bf" bf, fam "bt" bt, fam "bn" bn, fam "na" na, fam "pb" pb,
   fam "it" it, fam "ix" ix, fam "in" in_, fam "e2e" e2e, fam "e2ep" e2ep,
-  fam "sim" sim ]
+  fam "sim" sim, Family.plain "ip" ip ]
 
 end Lyon.Drive.C16
 
